@@ -7,6 +7,7 @@
   in ANY combination, and entries of different intents for the same key may be mixed in ANY way.
 -/
 import Rend.Proofs.ChunkedFootprint
+import Rend.Proofs.ChunkedGat
 
 namespace Rend.Props.C05
 open Rend Rend.Chunked
@@ -47,6 +48,15 @@ theorem C05_get_all_or_nothing {ε} (now : Nat) (t : Tier) (H : List Intent) (tk
     ∀ resp ∈ ((getLoop (ε := ε) t ks).eval now w tk).1.1, AnswerOK H resp :=
   let h := getLoop_all_or_nothing (ε := ε) now t H tk ks w hc
   ⟨h.1, h.2.2.2.1, h.2.2.2.2.1, h.2.2.2.2.2⟩
+
+/-- **Get-and-touch is all-or-nothing too**: against every consistent store it answers with a miss
+    or the value and flags of ONE intent, whole, and leaves a consistent store (it only moves
+    deadlines: the quiet get-and-touch requests answer from the same entries as quiet gets). -/
+theorem C05_gat_all_or_nothing {ε} (now : Nat) (t : Tier) (H : List Intent) (tk : List Bytes) (c : KeyCmd) (w : World)
+    (hc : Consistent (w.get t) H) :
+    Consistent ((((Chunked.gat (ε := ε) t c).eval now w tk).2.2.1).get t) H ∧
+    ∃ resp, ((Chunked.gat (ε := ε) t c).eval now w tk).1 = .ok resp ∧ resp.key = c.key ∧ AnswerOK H resp :=
+  gat_all_or_nothing now t H tk c w hc
 
 /-- The two combined: after ANY interleaving of writers' requests and ANY losses, a get returns
     a miss or one writer's whole value with that writer's flags. -/
